@@ -29,6 +29,7 @@ ASSUME = [
     "foreign key names used consistently (Diff.fk_names_ok): a name of B that also names a key of the same table in A whose "
     "signature B still wants names that same signature; otherwise convergence is REFUTED (C06_converge_fkname_refuted): the "
     "comparison matches keys by signature only and batch mode replaces the key whose name is re-used",
+    "all constraints named: no unnamed unique constraint (C06_unnamed_uq_outside states what happens otherwise), no unnamed foreign key",
     "no generated (Computed) columns: batch mode cannot rebuild a table that has one (cannot INSERT into generated column), so such "
     "upgrades do not run; generated columns are covered by C07 / C20 only",
     "server defaults of the class dflt_ok (no quote, double quote, parenthesis or newline inside a Python-string default or inside a "
